@@ -43,14 +43,21 @@ pub struct Layout {
     pub place: Place,
 }
 
+/// Rows emitted by `Composer::initialized()` before any user row (measured,
+/// not assumed).
+pub fn init_rows() -> usize {
+    static N: std::sync::OnceLock<usize> = std::sync::OnceLock::new();
+    *N.get_or_init(|| Composer::initialized().constraints())
+}
+
 impl Layout {
     pub fn filler(&self) -> usize {
         match self.place {
             Place::First => 0,
             Place::After(k) => k,
             Place::LastOfFull(total) => {
-                assert!(total.is_power_of_two() && total >= 4 + self.rows.len());
-                total - 4 - self.rows.len()
+                assert!(total.is_power_of_two() && total >= init_rows() + self.rows.len());
+                total - init_rows() - self.rows.len()
             }
         }
     }
@@ -72,7 +79,7 @@ impl Layout {
         h
     }
     pub fn first_row(&self) -> usize {
-        4 + self.filler()
+        init_rows() + self.filler()
     }
 }
 
